@@ -40,7 +40,7 @@ Lemma verify_eq cfg c now r :
   match verify_pre cfg r with
   | None => (false, c)
   | Some (sig_hex, ts_text, nonce, ts) =>
-      let ac := admit nonce (ts * sec) (h_tol cfg) now c in
+      let ac := cache_admit nonce (ts * sec) (h_tol cfg) now c in
       if negb (fst ac) then (false, snd ac) else
       match hex_decode sig_hex with
       | None | Some [] => (false, snd ac)
@@ -55,7 +55,7 @@ Proof.
   destruct (trim_space (header_get (h_ts cfg) (q_headers r))) as [|t1 t];
   destruct (trim_space (header_get (h_nonce cfg) (q_headers r))) as [|n1 n]; try reflexivity.
   destruct (parse_int (t1 :: t)) as [ts|]; [|reflexivity].
-  destruct (admit (n1 :: n) (ts * sec) (h_tol cfg) now c) as [fresh c1]. cbn [fst snd].
+  destruct (cache_admit (n1 :: n) (ts * sec) (h_tol cfg) now c) as [fresh c1]. cbn [fst snd].
   destruct fresh; reflexivity.
 Qed.
 
@@ -120,7 +120,7 @@ Theorem verify_spec cfg c now r :
   hmac_configured cfg ->
   (fst (verify cfg c now r) = true <->
    hmac_valid cfg now r /\
-   fst (admit (trim_space (header_get (h_nonce cfg) (q_headers r)))
+   fst (cache_admit (trim_space (header_get (h_nonce cfg) (q_headers r)))
               (match parse_int (trim_space (header_get (h_ts cfg) (q_headers r))) with Some ts => ts * sec | None => 0 end)
               (h_tol cfg) now c) = true).
 Proof.
@@ -129,7 +129,7 @@ Proof.
   destruct (verify_pre cfg r) as [[[[sg tt] nn] ts]|] eqn:P.
   - destruct (verify_pre_some _ _ _ _ _ _ P) as (E1 & E2 & E3 & N1 & N2 & N3 & PI).
     rewrite <- E1, <- E2, <- E3, PI. cbn zeta.
-    destruct (fst (admit nn (ts * sec) (h_tol cfg) now c)) eqn:A; cbn [negb].
+    destruct (fst (cache_admit nn (ts * sec) (h_tol cfg) now c)) eqn:A; cbn [negb].
     + pose proof (admit_true _ _ _ _ _ A) as (_ & Hw & _).
       destruct (hex_decode sg) as [[|g0 g]|] eqn:HD; cbn [fst].
       * split; [discriminate|]. intros [(_ & _ & _ & ts' & _ & _ & got & k & HD' & Hne & _) _].
@@ -160,7 +160,7 @@ Lemma verify_true_admitted cfg c now r :
 Proof.
   intros Hc. rewrite verify_eq. unfold admitted. unfold hmac_configured in Hc. rewrite Hc.
   destruct (verify_pre cfg r) as [[[[sg tt] nn] ts]|]; [|discriminate].
-  cbn zeta. destruct (fst (admit nn (ts * sec) (h_tol cfg) now c)); [|discriminate].
+  cbn zeta. destruct (fst (cache_admit nn (ts * sec) (h_tol cfg) now c)); [|discriminate].
   intros _. eauto.
 Qed.
 
@@ -170,12 +170,12 @@ Lemma verify_cache cfg c now r :
   if no_secrets_configured cfg then c else
   match verify_pre cfg r with
   | None => c
-  | Some (_, _, nonce, ts) => snd (admit nonce (ts * sec) (h_tol cfg) now c)
+  | Some (_, _, nonce, ts) => snd (cache_admit nonce (ts * sec) (h_tol cfg) now c)
   end.
 Proof.
   rewrite verify_eq. destruct (no_secrets_configured cfg); [reflexivity|].
   destruct (verify_pre cfg r) as [[[[sg tt] nn] ts]|]; [|reflexivity].
-  cbn zeta. destruct (negb (fst (admit nn (ts * sec) (h_tol cfg) now c))); [reflexivity|].
+  cbn zeta. destruct (negb (fst (cache_admit nn (ts * sec) (h_tol cfg) now c))); [reflexivity|].
   destruct (hex_decode sg) as [[|? ?]|]; reflexivity.
 Qed.
 
